@@ -84,10 +84,13 @@ def candidates(line):
         return []
     return []
 
-def shrink(line, fails, rounds=12, batch=400):
+def shrink(line, fails, rounds=12, batch=400, budget_s=45.0):
     """fails(list of lines) -> list of bool"""
+    import time
+    t0 = time.time()
     cur = line
     for _ in range(rounds):
+        if time.time() - t0 > budget_s: break
         cands = sorted(set(candidates(cur)), key=len)[:batch]
         if not cands: break
         res = fails(cands)
